@@ -70,6 +70,7 @@ class SObj:
         self.declname = declname
         self.owner = None  # (container, index, version) for write-through views
         self.tag = None
+        self.from_decl = False  # symbolic input built from a class declaration (only declared fields exist)
 
     def __repr__(self):
         return "SObj<%s %s>" % (self.clsname(), list(self.fields))
